@@ -42,7 +42,7 @@ Print Assumptions C06_pause_and_wait_exact.
 
 (* non-vacuity: j is accepted, reserved for, dequeued, run, released; a barrier read in between sees it *)
 Example C06_example :
-  match drun_from 1 [DAcceptJ; DCurLoad 0; DReserve 0 2; DRecheck 1; DLenReadQ 1; DDeqJ; DLenReadQ 0; DCurLoad 1;
+  match drun_from 1 [DAcceptJ; DCurLoad 0; DReserve 1 2; DRecheck 1; DLenReadQ 1; DDeqJ; DLenReadQ 0; DCurLoad 1;
                      DClaimJ true; DWfEnterJ; DWfExitJ; DCurLoad 1; DReleaseJ; DCurLoad 0] with
   | inr s => finished (jl s) = true /\ cur s = 0 /\ qj s = 0
   | inl _ => False
